@@ -297,11 +297,12 @@ def case_print(case):
     from .. import xshim
 
     ctx = xshim.make_ctx()
-    bounds, dyn, offkind = case  # dyn: set of (d,k,'b'|'s') that are dynamic (None); offkind: zero/pos/neg/dyn
+    bounds, dyn, offkind = case[:3]  # dyn: set of (d,k,'b'|'s') that are dynamic (None); offkind: zero/pos/neg/dyn
+    zero = case[3] if len(case) > 3 else frozenset()  # steps that are a static 0 (a broadcast dimension / tile level)
 
     def build(get):
         bs = [[None if (d, k, "b") in dyn else b for k, b in enumerate(bd)] for d, bd in enumerate(bounds)]
-        ss = [[None if (d, k, "s") in dyn else get(f"s{d}_{k}") for k in range(len(bd))] for d, bd in enumerate(bounds)]
+        ss = [[None if (d, k, "s") in dyn else 0 if (d, k) in zero else get(f"s{d}_{k}") for k in range(len(bd))] for d, bd in enumerate(bounds)]
         off = None if offkind == "dyn" else get("off")
         return mk_tsl(bs, ss, off)
 
@@ -339,7 +340,7 @@ def case_print(case):
         return a.data != b.data, f"{txt} -> {b.data}"
 
     def sig(f, v):
-        return "tsl:print_parse:" + ("dynamic_offset" if offkind == "dyn" else "static_offset")
+        return "tsl:print_parse:" + ("dynamic_offset" if offkind == "dyn" else "static_offset") + ("|static_step_0" if zero else "")
 
     return run_case(fn, replay, witness=True, signature=sig, sample=dict(bounds=bounds, dynamic=sorted(dyn), offset=offkind),
                     key=str(case), max_paths=64)
@@ -752,6 +753,9 @@ def run(chk):
             cases.append((b, frozenset(), off))
             cases.append((b, frozenset([(d, 0, "b") for d in range(len(b))] + [(d, 0, "s") for d in range(len(b))]), off))
             cases.append((b, frozenset([(0, 0, "b")]), off))
+    for b, zs in (([[2, 4]], [(0, 1)]), ([[2, 4]], [(0, 0)]), ([[2, 4], [2, 4]], [(0, 0), (0, 1)]), ([[4], [8]], [(0, 0)])):
+        cases.append((b, frozenset(), "zero", frozenset(zs)))
+        cases.append((b, frozenset(), "pos", frozenset(zs)))
     if only in (None, "print"):
         chk.add_results("print_parse", pmap(case_print, cases))
     # bound/step ops
